@@ -459,7 +459,16 @@ def rule_evaluation_order(check, rule):
         dels = [d_ for d_ in ast.walk(h.node) if isinstance(d_, ast.Delete) and any('calls' in norm(t_) for t_ in d_.targets)]
         trunc = [a_ for a_ in ast.walk(h.node) if isinstance(a_, ast.Assign) and any(isinstance(t_, ast.Subscript) and 'calls' in norm(t_.value)
                                                                                     for t_ in a_.targets)]
-        if not twice:
+        marks = [a_ for a_ in ast.walk(h.node) if isinstance(a_, ast.Assign) and any('len(' in norm(a_.value) and 'calls' in norm(a_.value) for _ in [0])]
+        visits = [c_ for c_ in ast.walk(h.node) if isinstance(c_, ast.Call) and isinstance(c_.func, ast.Attribute) and c_.func.attr in ('visit', 'generic_visit')]
+        early = [c_ for c_ in visits if marks and c_.lineno < min(m_.lineno for m_ in marks)
+                 and not (c_.args and norm(c_.args[0]).endswith('.iter'))]
+        if twice and (dels or trunc) and early:
+            # (D40b) what is visited before the mark is taken survives the discard and is visited again: recorded twice
+            check.violation(rule, site_of(h, early[0]), 'visit_%s visits %s before it notes where the recorded calls end, and again in the second traversal: a '
+                            'forwarding call there (a condition of the comprehension) is recorded twice' % (cname, norm(early[0].args[0]) if early[0].args else '?'),
+                            key=key, witness='[x for x in xs if callee(*args, **kwargs)]: every source listed twice')
+        elif not twice:
             check.violation(rule, site_of(h, h.node), 'visit_%s looks at the element once: a later part of it that mutates a name or hands it to other '
                             'code does not reach the forwarding call earlier in it, although it does from the second item on' % cname, key=key,
                             witness="[(inner(*args, **kwargs), kwargs.pop('b', None)) for _ in range(2)]")
@@ -1879,7 +1888,7 @@ def rule_enclosing_lookup(check, rule, precision_rule=None):
         check.holds(rule, st, 'get_enclosing: None for the scope\'s own names, else the nearest enclosing binding, else None', key=key)
 
 
-def rule_attribute_handler(check, rule):
+def rule_attribute_handler(check, rule, precision=False):
     """C05.R11 (D41): `x.attr` evaluates `x`, and hands out something that can act on it later.  visit_Attribute (a) traverses the object
     of the access when it is not a plain name (it may contain a forwarding call, or another access), and (b) for a plain name either
     invalidates it like any other read (visits it) or taints the parameter marker it denotes -- `pop = kwargs.pop; pop('a')` empties
@@ -1914,6 +1923,15 @@ def rule_attribute_handler(check, rule):
                    for c in ast.walk(h.node))
         if not late and not unconditional:
             problems.append('the taint is not put on the list that reaches calls recorded earlier (late_tainted) when it happens in a nested function')
+    if taints and precision:
+        # (D41c) completeness: only the star parameters are containers being forwarded; tainting whatever parameter an attribute is read
+        # from makes `self` unknown as soon as the body mentions self.<anything>, and partial(self.target, *args, **kwargs) unresolvable
+        def star_test(t, p):
+            txt = norm(t)
+            return p and ('varargs' in txt or 'varkwargs' in txt)
+        if not all(dominated_by(h, a, star_test) for a in taints):
+            problems.append('every parameter an attribute is read from is tainted, not only the star parameters: mentioning self.<anything> makes '
+                            'self unknown and a later partial(self.target, *args, **kwargs) unresolvable')
     if problems:
         check.violation(rule, site_of(h, h.node), 'visit_Attribute: ' + '; '.join(problems), key=key,
                         witness="def f(*args, **kwargs):\n    pop = kwargs.pop\n    pop('a', None)\n    return inner(*args, **kwargs)")
